@@ -47,11 +47,16 @@ var ckNames = map[ckind]string{ckNone: "none", ckOwnLine: "own-line", ckOwnDoc: 
 const (
 	lineComment = "// c1"
 	docComment  = "/* c1 */"
+	// second comment text: a per cent sign (a formatter that passes text through a Printf-style
+	// call mangles it)
+	lineCommentPct = "// 50%s c2"
+	docCommentPct  = "/* 50%s c2 */"
 )
 
 type insertion struct {
 	At   int   `json:"at"` // boundary: before token At (len(tokens) = end of file)
 	Kind ckind `json:"kind"`
+	Pct  bool  `json:"pct"` // use the comment text with the per cent sign
 }
 
 func sepBefore(toks []tok, i, lay int) string {
@@ -87,6 +92,10 @@ func applicable(toks []tok, lay int, ins insertion) bool {
 func render(toks []tok, lay int, ins *insertion) string {
 	var sb strings.Builder
 	n := len(toks)
+	lineComment, docComment := lineComment, docComment
+	if ins != nil && ins.Pct {
+		lineComment, docComment = lineCommentPct, docCommentPct
+	}
 	for i := 0; i <= n; i++ {
 		var sep string
 		if i < n {
@@ -180,6 +189,10 @@ func realFormat(src string) (out string, err error, pan string) {
 
 const maxScanTokens = 1 << 16 // generous deterministic step bound for the scanner loop
 
+// noEOF: a scanner that consumes at least one rune per token returns at most len(src) tokens
+// before EOF; exceeding len(src)+65536 NextToken calls means it never gets there.
+const noEOF = "scanner.NextToken never returns EOF (more tokens than input bytes)"
+
 func realScan(src string) (toks []token.Token, err error, pan string) {
 	defer func() {
 		if r := recover(); r != nil {
@@ -192,7 +205,7 @@ func realScan(src string) (toks []token.Token, err error, pan string) {
 	}
 	for i := 0; ; i++ {
 		if i > maxScanTokens+len(src) {
-			return toks, nil, "hang: scanner produced more tokens than input bytes"
+			return toks, nil, noEOF
 		}
 		t, e := s.NextToken()
 		if e != nil {
@@ -240,8 +253,8 @@ type failure struct {
 }
 
 type verdict struct {
-	Accepted bool // the real parser accepts the source (it is a syntactically valid program)
-	Fails    []failure
+	Accepted  bool // the real parser accepts the source (it is a syntactically valid program)
+	Fails     []failure
 	Formatted string
 }
 
@@ -260,7 +273,9 @@ func checkSource(src string, strictTokens bool) verdict {
 	if len(src) == 0 {
 		return v // scanner.MustNewScanner log.Fatal()s on empty input: outside the property's domain
 	}
-	if _, _, pan := realScan(src); pan != "" {
+	if _, _, pan := realScan(src); pan == noEOF {
+		v.Fails = append(v.Fails, failure{"scan-no-eof", pan})
+	} else if pan != "" {
 		v.Fails = append(v.Fails, failure{"scan-panic", pan})
 	}
 	a, err, pan := realParse(src)
